@@ -5,6 +5,7 @@ Targets (all tape/PBT, all link the OpenSSL oracle in ossl_oracle.cc):
   c12_hmac_kdf       HMAC-{MD5,SHA1,SHA256,SHA384} (all entry points), HKDF extract/expand/expand-label, PBKDF2 (pLen <= 64)
   c12_cipher         AES block, AES-CBC 128/192/256, 3DES-CBC
   c12_aead           AES-GCM 128/192/256 (all seal/open entry points, tag lengths 1..16), ChaCha20-Poly1305-IETF, negative tests
+  c12_chacha_ref     ChaCha20-Poly1305 part of c12_aead with MATRIX_CHACHA20POLY1305_REF=1 (portable reference implementation)
   c12_aead_strict    same source with -DC12_STRICT: additionally (a) no plaintext left in the output buffer after a rejected open,
                      (b) context reuse after a tag shorter than 16 bytes.  Kept separate because the pinned tree fails both
                      (findings/gcm-plaintext-released.md, findings/gcm-short-tag-context-reuse.md) and every shard would stop at once.
@@ -34,16 +35,19 @@ PROP = dict(
                  'HMAC Init keys <= block, exact in-situ overlap only, update lengths fit uint32_t)'],
     targets=[
         dict(name='c12_pbkdf2_longpw', src=['props/C12/hmac_kdf.cc'] + _O, libs=_L, defs=['C12_ONLY_PBKDF2', 'C12_PBKDF2_MAXPW=129'],
-             quick=dict(cases=5000, secs=10), thorough=dict(cases=300000, secs=90)),
+             quick=dict(cases=5000, secs=10), thorough=dict(cases=300000, secs=60)),
         dict(name='c12_digest', src=['props/C12/digest.cc'] + _O, libs=_L,
-             quick=dict(cases=130000, secs=15), thorough=dict(cases=12000000, secs=200)),
+             quick=dict(cases=130000, secs=15), thorough=dict(cases=12000000, secs=180)),
         dict(name='c12_hmac_kdf', src=['props/C12/hmac_kdf.cc'] + _O, libs=_L,
-             quick=dict(cases=130000, secs=20), thorough=dict(cases=6000000, secs=200)),
+             quick=dict(cases=130000, secs=20), thorough=dict(cases=6000000, secs=180)),
         dict(name='c12_cipher', src=['props/C12/cipher.cc'] + _O, libs=_L,
-             quick=dict(cases=90000, secs=12), thorough=dict(cases=6000000, secs=150)),
+             quick=dict(cases=90000, secs=12), thorough=dict(cases=6000000, secs=130)),
         dict(name='c12_aead', src=['props/C12/aead.cc'] + _O, libs=_L,
-             quick=dict(cases=120000, secs=25), thorough=dict(cases=2500000, secs=200)),
+             quick=dict(cases=120000, secs=25), thorough=dict(cases=2500000, secs=170)),
+        # ChaCha20/Poly1305 reference code (chacha20_ref.c + poly1305_donna.c) instead of the SSSE3/SSE2 code picked at run time on x86
+        dict(name='c12_chacha_ref', src=['props/C12/aead.cc'] + _O, libs=_L, defs=['C12_CHACHA_ONLY'], env={'MATRIX_CHACHA20POLY1305_REF': '1'},
+             quick=dict(cases=30000, secs=10), thorough=dict(cases=600000, secs=50)),
         dict(name='c12_aead_strict', src=['props/C12/aead.cc'] + _O, libs=_L, defs=['C12_STRICT'],
-             quick=dict(cases=25000, secs=10), thorough=dict(cases=400000, secs=60)),
+             quick=dict(cases=25000, secs=10), thorough=dict(cases=400000, secs=50)),
     ],
 )
